@@ -174,3 +174,6 @@ package model
 //@ func SortData trusted reflective
 //@   modifies cells(T)
 //@ func UpdateList safety-root
+
+// the duration a DurationType string denotes (parsed by github.com/rickb777/date/period): a function of the string only
+//@ func (*DurationType).GetTimeDuration trusted pure
